@@ -241,15 +241,15 @@ def loadItemsWith (child : Bytes → Ty → V → Outcome V) (e : Env) (pfx : By
       | .nondet => .nondet
 
 /-- the body of `loadEnvInternal` for a non-pointer type `t` behind a pointer that is nil (`none`) or points to
-`cur`; returns the new pointer (`nil` / `some v`). `fuel` bounds the nesting depth of the type; `fx` selects the
-proposed fix of the prefix rule. -/
+`cur`; returns the new pointer (`nil` / `some v`). `fuel` bounds the nesting depth of the type; `fx = true` is the code
+as of /repo 7bda13e, `fx = false` the prefix rule before it (regression record of F-C09). -/
 def loadAt (fx : Bool) (fl : FloatOracle) (e : Env) : Nat → Bytes → Ty → Option V → Outcome V
   | 0, _, _, _ => .err
   | fuel + 1, pfx, t, cur? =>
     let child := dispatch (loadAt fx fl e fuel)
     let unchanged : Outcome V := .ok (match cur? with | none => .nil | some v => .some v)
-    -- "some key has this prefix ⇒ call with the empty string"; the proposed fix (`fx`) restricts the rule to
-    -- children (`prefix_…`) of a value that exists
+    -- "some key has this prefix ⇒ call with the empty string": restricted to children (`prefix_…`) of a value
+    -- that exists (`fx`); before 7bda13e any variable starting with the same letters counted
     let prefixRule : Bool :=
       if fx then cur?.isSome && hasKeyWithPrefix e (pfx ++ [95]) else hasKeyWithPrefix e pfx
     match t with
